@@ -132,7 +132,7 @@ class Machine(object):
   # ------------------------------------------------------------------- run
   def run(self):
     ops = self.plan["ops"]
-    with world.ClockSeam(self.clock) as cs:
+    with world.RunWarnings(), world.ClockSeam(self.clock) as cs:
       self.seam_missing += cs.missing
       for i, op in enumerate(ops):
         self.op_index = i
@@ -826,6 +826,16 @@ class Machine(object):
     self.handles[op["h2"]] = h2
     live["handle2"] = h2
     self.cov["clones"] += 1
+
+  # -- deprecated constructor aliases, in a process that has a history
+  def op_alias_new(self, op, ev, live):
+    """Construct a throw-away estimator through a deprecated alias parameter."""
+    live["alias"] = (op["cls"], op["alias"], op["repl"], op["value"])
+    est = self._call(ev, live, cls_of(op["cls"]), **{op["alias"]: op["value"]})
+    live["alias_est"] = est
+    ev["cls"] = op["cls"]
+    ev["alias"] = op["alias"]
+    self.cov["alias_constructions_in_history"] += 1
 
   # -- the caller edits its own data
   def op_mutate_store(self, op, ev, live):
